@@ -254,7 +254,7 @@ def run_case(case):
     rng = random.Random(case["seed"])
     counters = dict.fromkeys(["evaluations", "probe_failures", "child_not_killed", "restart_rc_nonzero",
                               "graph_compared", "files_compared", "restarts_with_slow_hash_threads", "restarts_after_an_edit",
-                              "edited_restarts_compared", "edited_restart_leftovers"] + REQUIRED_COUNTERS, 0)
+                              "edited_restarts_compared", "edited_restart_leftovers", "graceful_stops"] + REQUIRED_COUNTERS, 0)
     violations = []
     classes = set()
     witness = {"case": case["id"]}
@@ -377,6 +377,8 @@ def run_case(case):
         else:
             points += [{"gate": n} for n in rng.sample(range(1, ngate + 1), min(ngate, max(2, budget // 4)))]
         points += [{"after_write": n} for n in rng.sample(range(1, nwrite + 1), min(nwrite, max(1, budget // 4)))]
+        # a graceful stop requested by the user (running steps finish, nothing new starts)
+        points += [{"shutdown_gate": n} for n in rng.sample(range(1, ngate + 1), min(ngate, max(1, budget // 8)))]
         points = points * case.get("repeat", 1)
         for point in points:
             shutil.rmtree("crash", ignore_errors=True)
@@ -388,13 +390,26 @@ def run_case(case):
                 proc, events = run_child({"cfg": cfg, "policy": policy,
                                           "seed": rng.randrange(1 << 30), "env": env, "crash": point})
                 killed = [e for e in events if e["type"] == "killed"]
-                if proc.returncode != -9 or not killed:
+                kind = next(iter(point))
+                if kind == "shutdown_gate":
+                    stopped = [e for e in events if e["type"] == "shutdown_requested"]
+                    fin = [e for e in events if e["type"] == "done"]
+                    if proc.returncode != 0 or not stopped or not fin or fin[0]["error"]:
+                        if stopped:
+                            vio("director does not stop cleanly when asked to",
+                                f"shutdown requested at gate {point['shutdown_gate']}: rc={proc.returncode} "
+                                f"{fin[:1]} {proc.stderr[-400:]}")
+                        counters["child_not_killed"] += 1
+                        continue
+                    counters["graceful_stops"] += 1
+                    killed = [{"why": f"stopped on request at gate {point['shutdown_gate']}"}]
+                elif proc.returncode != -9 or not killed:
                     counters["child_not_killed"] += 1
                     continue
-                counters["kills"] += 1
-                kind = next(iter(point))
-                counters[{"commit": "kills_after_commit", "gate": "kills_at_gate",
-                          "after_write": "kills_after_write"}[kind]] += 1
+                else:
+                    counters["kills"] += 1
+                    counters[{"commit": "kills_after_commit", "gate": "kills_at_gate",
+                              "after_write": "kills_after_write"}[kind]] += 1
                 ph = phase_of_commit.get(point.get("commit"), "build") if kind == "commit" else "build"
                 if ph == "cleanup":
                     counters["kills_during_cleanup"] += 1
@@ -411,6 +426,8 @@ def run_case(case):
                     counters["kills_with_running_commands"] += 1
                 classes.add(repr((kind, ph, min(len(running), 3))))
                 what = f"killed {killed[0]['why']} ({ph}), running: {[r[:50] for r in running]}"
+                if kind == "shutdown_gate":
+                    what = killed[0]["why"]
                 # -- restart ---------------------------------------------------------------------------
                 # the restarted director may be slow to start its hash threads (an injected delay at
                 # that suspension point): a step and the step that defines it then overlap more
